@@ -62,7 +62,7 @@ def tasks(tier):
     W = META["bounds"][tier]["W"]
     ts = [("edges", kind, W) for kind in ("unary", "binary", "mux", "part", "match", "assignlist", "readport", "iobuffer")]
     ts += [("cycles", k) for k in range(0, len(cycle_designs()), 8)]
-    ts += [("drivers",), ("early",), ("connect",)]
+    ts += [("drivers",), ("early",), ("connect",), ("arst-cycles",)]
     ts += [("dfs", n) for n in ((1, 2, 3) if tier == "quick" else (1, 2, 3, 4))]
     return ts
 
@@ -412,6 +412,53 @@ def check_cycles(start):
 # ------------------------------------------------------------------------------------------------
 # driver conflicts
 
+def check_arst_cycles():
+    """A register's ASYNCHRONOUS reset is a combinational input of the register (asserting it changes the output with no
+    clock edge): a design in which a register of an async-reset domain drives that domain's reset -- directly, through logic,
+    through ResetSignal() in a submodule -- has a bit that depends on itself and is rejected with CombinationalCycle; the same
+    designs with a synchronous reset, or with the reset derived from a register of ANOTHER domain, are accepted."""
+    from amaranth.hdl import Signal, Module, ClockDomain, ResetSignal
+    from amaranth.hdl._ir import build_netlist, Fragment
+    from amaranth.hdl._nir import CombinationalCycle
+    obs = []
+    for async_reset in (True, False):
+        for form in ("direct", "through-logic", "submodule-ResetSignal", "other-domain-register"):
+            m = Module()
+            cd = ClockDomain("d", async_reset=async_reset)
+            od = ClockDomain("o")
+            m.domains += [cd, od]
+            r, q, x = Signal(2, name="r"), Signal(2, name="q"), Signal(name="x")
+            m.d.d += r.eq(r + 1)
+            m.d.o += q.eq(q + 1)
+            if form == "direct":
+                m.d.comb += cd.rst.eq(r[1])
+            elif form == "through-logic":
+                m.d.comb += cd.rst.eq((r == 3) & x)
+            elif form == "submodule-ResetSignal":
+                sub = Module()
+                sub.d.comb += ResetSignal("d").eq(r[0] | x)
+                m.submodules.sub = sub
+            else:
+                m.d.comb += cd.rst.eq(q[1])
+            want = async_reset and form != "other-domain-register"
+            try:
+                build_netlist(Fragment.get(m, None), [r, q, x, cd.clk, od.clk, od.rst])
+                got = False
+            except CombinationalCycle:
+                got = True
+            except Exception as e:
+                got = repr(e)[:160]
+            ok = got == want
+            obs.append({"name": f"arst-cycles::{'async' if async_reset else 'sync'}-reset::{form}", "kind": "bounded", "status": "proved" if ok else "refuted",
+                        "backend": "closed", "time_s": 0.0,
+                        **({} if ok else {"failing_input": {"reset": "asynchronous" if async_reset else "synchronous", "reset driven": form,
+                                                            "CombinationalCycle": got, "expected": want,
+                                                            "how": "register r in domain d; d's reset driven combinationally as described; real build_netlist"}})})
+    return {"task": "arst-cycles", "paths": len(obs), "solver_s": 0.0, "obligations": obs,
+            "bounded": [{"name": "cycles through an asynchronous reset", "bound": "4 ways of driving the reset x async / sync", "cases": len(obs),
+                         "failures": sum(o["status"] == "refuted" for o in obs)}]}
+
+
 def check_drivers():
     from amaranth.hdl import Signal, Module, ClockDomain, Instance
     from amaranth.hdl._ir import build_netlist, Fragment, DriverConflict
@@ -672,6 +719,8 @@ def run_task(task):
         return check_edges(task[1], task[2])
     if k == "cycles":
         return check_cycles(task[1])
+    if k == "arst-cycles":
+        return check_arst_cycles()
     if k == "drivers":
         return check_drivers()
     if k == "early":
